@@ -291,9 +291,11 @@ mod harnesses {
             }
         };
     }
-    // @harness c14_getflat_1x1x2 props=C14 tier=thorough kind=bounded flags="--no-overflow-checks" bound="shape 1x1x2" what="get_flat reads a 3-D tensor / a vector out in row-major order" timeout=3000 mem=20
+    // (measured in the thorough tier: no result within 2400-3000 s (symbolic execution of the nested flat_map / stateful iterator); get_flat and reshape are proved for every shape in Verus (C14_reshape.rs) - kept for reference, not part of any tier)
+    // @probe c14_getflat_1x1x2 props=C14 tier=thorough kind=bounded flags="--no-overflow-checks" bound="shape 1x1x2" what="get_flat reads a 3-D tensor / a vector out in row-major order" timeout=3000 mem=20
     getflat_h!(c14_getflat_1x1x2, 1usize, 1usize, 2usize);
-    // @harness c14_getflat_1x2x2 props=C14 tier=thorough kind=bounded flags="--no-overflow-checks" bound="shape 1x2x2" what="get_flat" timeout=3000 mem=20
+    // (measured in the thorough tier: no result within 2400-3000 s (symbolic execution of the nested flat_map / stateful iterator); get_flat and reshape are proved for every shape in Verus (C14_reshape.rs) - kept for reference, not part of any tier)
+    // @probe c14_getflat_1x2x2 props=C14 tier=thorough kind=bounded flags="--no-overflow-checks" bound="shape 1x2x2" what="get_flat" timeout=3000 mem=20
     getflat_h!(c14_getflat_1x2x2, 1usize, 2usize, 2usize);
     // @harness c14_getflat_vec props=C14 tier=quick kind=bounded flags="--no-overflow-checks" bound="vector of length 3" what="get_flat of a vector is the vector" timeout=600
     #[kani::proof]
@@ -371,11 +373,14 @@ mod harnesses {
     unflatten_h!(c14_unflatten_2x1x2, 2usize, 1usize, 2usize);
     // @harness c14_reshape_to_vec_1x2x3 props=C14 tier=quick kind=bounded flags="--no-overflow-checks" bound="1x2x3 -> 6" what="reshape 3-D -> vector keeps the row-major sequence" timeout=900
     reshape_to_vec_h!(c14_reshape_to_vec_1x2x3, 1usize, 2usize, 3usize);
-    // @harness c14_reshape_1x2x3 props=C14 tier=thorough kind=bounded flags="--no-overflow-checks" bound="1x2x3 -> 3x2x1 -> 1x2x3" what="3-D -> 3-D -> back is the identity on the row-major sequence" timeout=3000 mem=20
+    // (measured in the thorough tier: no result within 2400-3000 s (symbolic execution of the nested flat_map / stateful iterator); get_flat and reshape are proved for every shape in Verus (C14_reshape.rs) - kept for reference, not part of any tier)
+    // @probe c14_reshape_1x2x3 props=C14 tier=thorough kind=bounded flags="--no-overflow-checks" bound="1x2x3 -> 3x2x1 -> 1x2x3" what="3-D -> 3-D -> back is the identity on the row-major sequence" timeout=3000 mem=20
     reshape_h!(c14_reshape_1x2x3, 1usize, 2usize, 3usize, 3usize, 2usize, 1usize);
-    // @harness c14_reshape_1x1x2 props=C14 tier=thorough kind=bounded flags="--no-overflow-checks" bound="1x1x2 -> 2x1x1 -> back" what="reshape round trip" timeout=3000 mem=20
+    // (measured in the thorough tier: no result within 2400-3000 s (symbolic execution of the nested flat_map / stateful iterator); get_flat and reshape are proved for every shape in Verus (C14_reshape.rs) - kept for reference, not part of any tier)
+    // @probe c14_reshape_1x1x2 props=C14 tier=thorough kind=bounded flags="--no-overflow-checks" bound="1x1x2 -> 2x1x1 -> back" what="reshape round trip" timeout=3000 mem=20
     reshape_h!(c14_reshape_1x1x2, 1usize, 1usize, 2usize, 2usize, 1usize, 1usize);
-    // @harness c14_reshape_2x2x2 props=C14 tier=thorough kind=bounded flags="--no-overflow-checks" bound="2x2x2 -> 1x4x2 -> 2x2x2; -> 8" what="reshape round trip" timeout=3000 mem=20
+    // (measured in the thorough tier: no result within 2400-3000 s (symbolic execution of the nested flat_map / stateful iterator); get_flat and reshape are proved for every shape in Verus (C14_reshape.rs) - kept for reference, not part of any tier)
+    // @probe c14_reshape_2x2x2 props=C14 tier=thorough kind=bounded flags="--no-overflow-checks" bound="2x2x2 -> 1x4x2 -> 2x2x2; -> 8" what="reshape round trip" timeout=3000 mem=20
     reshape_h!(c14_reshape_2x2x2, 2usize, 2usize, 2usize, 1usize, 4usize, 2usize);
 
     macro_rules! refuse {
@@ -426,10 +431,10 @@ mod harnesses {
     }
     // @harness c18_random_single props=C18 tier=quick kind=bounded modular=1 flags="--no-overflow-checks" bound="shape 2; every clock seed; every value generate's contract allows" what="Tensor::random: requested shape, all entries in [min,max]" timeout=900
     random_h!(c18_random_single, Shape::Single(2), 2usize);
-    // @harness c18_random_double props=C18 tier=thorough kind=bounded modular=1 flags="--no-overflow-checks" bound="shape 1x2" what="Tensor::random 2-D" timeout=900
+    // @harness c18_random_double props=C18 tier=quick kind=bounded modular=1 flags="--no-overflow-checks" bound="shape 1x2" what="Tensor::random 2-D" timeout=900
     random_h!(c18_random_double, Shape::Double(1, 2), 2usize);
-    // @harness c18_random_triple props=C18 tier=thorough kind=bounded modular=1 flags="--no-overflow-checks" bound="shape 1x1x2" what="Tensor::random 3-D" timeout=1200
+    // @harness c18_random_triple props=C18 tier=quick kind=bounded modular=1 flags="--no-overflow-checks" bound="shape 1x1x2" what="Tensor::random 3-D" timeout=1200
     random_h!(c18_random_triple, Shape::Triple(1, 1, 2), 2usize);
-    // @harness c18_random_quadruple props=C18 tier=thorough kind=bounded modular=1 flags="--no-overflow-checks" bound="shape 1x1x1x2" what="Tensor::random 4-D" timeout=1200
+    // @harness c18_random_quadruple props=C18 tier=quick kind=bounded modular=1 flags="--no-overflow-checks" bound="shape 1x1x1x2" what="Tensor::random 4-D" timeout=1200
     random_h!(c18_random_quadruple, Shape::Quadruple(1, 1, 1, 2), 2usize);
 }
